@@ -26,7 +26,7 @@ func init() {
 		Race:         true,
 		RaceAdvisory: true, // client-side races are judged by C20; here they are only counted
 		CaseTimeout:  200e9,
-		Rule: "two kinds of cases. (a) notification content / count, deterministic, direct mode: scenarios of C05's generator; after every request and server idleness the MQTT stand-in's publish log must have grown by exactly one message on <collection>/<key> carrying {CUID: pusher, DUID, sseq: new end of log} for every datatype of the request that stored >= 1 operation, and by none otherwise. (b) realtime: 2-5 REALTIME SDK clients over real grpc and real paho clients on the MQTT stand-in (deliveries delayed at random; responses of served requests held back 0-5 ms so that notifications overtake them; a solo client loses 40 % of the responses to its pushes) subscribe, complete their first sync (in a quarter of the cases a notification naming another datatype id with a huge sequence number is then delivered on the key's topic) and then only issue local operations and small committed transactions from their own goroutines at random moments, no Sync() call; after the last operation the harness waits for logical quiescence (no RPC in flight, no queued delivery, no announced background goroutine, no database command in progress, and no new RPC / publish event during a 2 s silence window) and then requires equal state on all clients and nothing left to push; then an epilogue steered by logical events follows, with the same quiescence oracle: A's next push is held at the front after it was served and either (0) A issues a second operation and the notification of a push B made earlier (deliveries were held at the broker) is released to A during that flight, (1) B pushes after A's request was served and its notification reaches A during that flight, or (2) two held notifications of B are released together - the first starts A's pull, the second waits in A's queue - and a third push of B is announced while A's receive loop is busy; then nothing else happens; no client may start a push-pull because of a notification that its own push caused (hook events dm.notification / dm.sync.on-notification joined on receiver and sseq; a solo client, all of whose notifications are its own, must also issue no more push-pull RPCs than its local operations started); the run is under the race detector; " +
+		Rule: "two kinds of cases. (a) notification content / count, deterministic, direct mode: scenarios of C05's generator; after every request and server idleness the MQTT stand-in's publish log must have grown by exactly one message on <collection>/<key> carrying {CUID: pusher, DUID, sseq: new end of log} for every datatype of the request that stored >= 1 operation, and by none otherwise. (b) realtime: 2-5 REALTIME SDK clients over real grpc and real paho clients on the MQTT stand-in (deliveries delayed at random; responses of served requests held back 0-5 ms so that notifications overtake them; a solo client loses 40 % of the responses to its pushes) subscribe, complete their first sync (for the second client of half of the cases the broker takes 40-160 ms to process the SUBSCRIBE packet; the moment that client's state-change handler reports SUBSCRIBED the first client issues one operation, nothing else happens, and the quiescence oracle below must find both equal; in a quarter of the cases a notification naming another datatype id with a huge sequence number is then delivered on the key's topic) and then only issue local operations and small committed transactions from their own goroutines at random moments, no Sync() call; after the last operation the harness waits for logical quiescence (no RPC in flight, no queued delivery, no announced background goroutine, no database command in progress, and no new RPC / publish event during a 2 s silence window) and then requires equal state on all clients and nothing left to push; then an epilogue steered by logical events follows, with the same quiescence oracle: A's next push is held at the front after it was served and either (0) A issues a second operation and the notification of a push B made earlier (deliveries were held at the broker) is released to A during that flight, (1) B pushes after A's request was served and its notification reaches A during that flight, or (2) two held notifications of B are released together - the first starts A's pull, the second waits in A's queue - and a third push of B is announced while A's receive loop is busy; then nothing else happens; no client may start a push-pull because of a notification that its own push caused (hook events dm.notification / dm.sync.on-notification joined on receiver and sseq; a solo client, all of whose notifications are its own, must also issue no more push-pull RPCs than its local operations started); the run is under the race detector; " +
 			"non-trivial = (a) >= 3 requests stored operations and >= 1 stored none; (b) >= 2 clients issued operations concurrently; distinct = hash of the script (a) / of the observed RPC order (b)",
 		Assumptions: []string{
 			"'converge by themselves' is decided as bounded progress to logical quiescence; not quiescent within 60 s => inconclusive",
@@ -233,6 +233,47 @@ func c18Realtime(c *core.Case) *core.Result {
 			return false
 		}
 	}
+	// logical quiescence with a silence window, then equal state and nothing left to push
+	settleAndCompare := func(stage string) *core.Result {
+		deadline := time.Now().Add(60 * time.Second)
+		lastEvents, silentSince := -1, time.Now()
+		quiet := false
+		for time.Now().Before(deadline) {
+			events := len(rpc.Calls()) + b.MQ.NumPubs()
+			busy := rpc.InFlight() != 0 || b.MQ.Queued() != 0 || vhook.Pending() != 0 || b.DB.OpenCommands() != 0
+			if busy || events != lastEvents {
+				lastEvents, silentSince = events, time.Now()
+			} else if time.Since(silentSince) > 2*time.Second {
+				quiet = true
+				break
+			}
+			time.Sleep(20 * time.Millisecond)
+		}
+		if !quiet {
+			return c.Inconclusive("no logical quiescence within 60 s %s (rpc in flight %d, queued deliveries %d, background goroutines %d)", stage, rpc.InFlight(), b.MQ.Queued(), vhook.Pending())
+		}
+		base := ""
+		for i, x := range cls {
+			v := crdt.Canon(x.dt.ToJSON())
+			if cn, ok := x.dt.(orda.Counter); ok {
+				v = crdt.Canon(cn.Get())
+			}
+			if i == 0 {
+				base = v
+			} else if v != base {
+				return c.Violation("realtime-no-convergence", "%s: the system is quiescent (no RPC, no queued notification, no background goroutine for 2 s) but client %s reads %s while client %s reads %s", stage, cls[0].alias, clip(base, 400), x.alias, clip(v, 400))
+			}
+			if p := x.w.CreatePushPullPack(); len(p.Operations) > 0 {
+				return c.Violation("realtime-unpushed-operations", "%s: the system is quiescent but client %s still holds %d operations that were never pushed", stage, x.alias, len(p.Operations))
+			}
+		}
+		return nil
+	}
+	// a broker that is slow in processing the SUBSCRIBE of the second client: its first sync is
+	// complete when its state-change handler reports SUBSCRIBED, and whatever is pushed from then
+	// on has to reach it without a Sync() call - whether or not the broker took its time
+	slowSub := ncli >= 2 && r.Intn(2) == 0
+	slowBy := time.Duration(40+r.Intn(120)) * time.Millisecond
 	for i := 0; i < ncli; i++ {
 		x := &rtClient{alias: fmt.Sprintf("rt%d", i)}
 		x.cli = b.NewSDKClient(rpc, "colA", x.alias, model.SyncType_REALTIME)
@@ -250,11 +291,34 @@ func c18Realtime(c *core.Case) *core.Result {
 			x.errs += len(errs)
 			x.mu.Unlock()
 		})
+		if slowSub && i == 1 {
+			first := cls[0].cuid
+			b.MQ.SetSubscribeDelay(func(id, topic string) time.Duration {
+				if id != first {
+					return slowBy
+				}
+				return 0
+			})
+		}
 		x.dt = openRT(x.cli, key, typ, i == 0, h)
 		x.w = x.dt.(iface.Datatype)
 		x.cuid = x.w.GetCUID()
 		if !waitState(x) {
 			return c.Inconclusive("client %d did not complete its first sync", i)
+		}
+		if slowSub && i == 1 {
+			// the second client has just reported SUBSCRIBED: the first one issues one operation
+			// right now, and nothing else happens
+			cls = append(cls, x)
+			crdt.Apply(cls[0].dt, sureOp(typ, crdt.NewGen(newRand(r.Int63()))))
+			c.Step("client rt1 reported SUBSCRIBED (the broker took %v for its SUBSCRIBE); rt0 issues one operation at once", slowBy)
+			res := settleAndCompare("after the first sync of a client whose topic subscription the broker processed slowly")
+			cls = cls[:1]
+			b.MQ.SetSubscribeDelay(nil)
+			if res != nil {
+				return res
+			}
+			c.Count("first_syncs_with_slow_broker_subscription", 1)
 		}
 		// the first sync is complete once the client's topic subscription is active at the broker
 		for t := 0; t < 500 && b.MQ.Subscribers("colA/"+key) < i+1; t++ {
@@ -362,42 +426,6 @@ func c18Realtime(c *core.Case) *core.Result {
 	}
 	wg.Wait()
 	c.Step("%d clients issued %d operations each from their own goroutines; waiting for logical quiescence", ncli, nops)
-	// logical quiescence with a silence window, then equal state and nothing left to push
-	settleAndCompare := func(stage string) *core.Result {
-		deadline := time.Now().Add(60 * time.Second)
-		lastEvents, silentSince := -1, time.Now()
-		quiet := false
-		for time.Now().Before(deadline) {
-			events := len(rpc.Calls()) + b.MQ.NumPubs()
-			busy := rpc.InFlight() != 0 || b.MQ.Queued() != 0 || vhook.Pending() != 0 || b.DB.OpenCommands() != 0
-			if busy || events != lastEvents {
-				lastEvents, silentSince = events, time.Now()
-			} else if time.Since(silentSince) > 2*time.Second {
-				quiet = true
-				break
-			}
-			time.Sleep(20 * time.Millisecond)
-		}
-		if !quiet {
-			return c.Inconclusive("no logical quiescence within 60 s %s (rpc in flight %d, queued deliveries %d, background goroutines %d)", stage, rpc.InFlight(), b.MQ.Queued(), vhook.Pending())
-		}
-		base := ""
-		for i, x := range cls {
-			v := crdt.Canon(x.dt.ToJSON())
-			if cn, ok := x.dt.(orda.Counter); ok {
-				v = crdt.Canon(cn.Get())
-			}
-			if i == 0 {
-				base = v
-			} else if v != base {
-				return c.Violation("realtime-no-convergence", "%s: the system is quiescent (no RPC, no queued notification, no background goroutine for 2 s) but client %s reads %s while client %s reads %s", stage, cls[0].alias, clip(base, 400), x.alias, clip(v, 400))
-			}
-			if p := x.w.CreatePushPullPack(); len(p.Operations) > 0 {
-				return c.Violation("realtime-unpushed-operations", "%s: the system is quiescent but client %s still holds %d operations that were never pushed", stage, x.alias, len(p.Operations))
-			}
-		}
-		return nil
-	}
 	if res := settleAndCompare("after the concurrent phase"); res != nil {
 		return res
 	}
